@@ -68,12 +68,30 @@ func c03Check(out *vlib.Out, c *c03Case, run *c34Run, cn c34Canon, hung bool) {
 		out.Count("oracle:skipped-geoip-hypothesis")
 		return
 	}
+	rp := c.replay(vlib.Seed())
 	if c.tagged {
-		out.Count("oracle:skipped-valid-tag")
+		// a registered tag was presented (outside the property): still nothing may be written or closed,
+		// and the handler may not return before the deadline it armed
+		out.Count("oracle:valid-tag-reduced")
+		var armed time.Time
+		for _, e := range run.conn.log.snapshot() {
+			switch e.kind {
+			case 'W':
+				c03Fail(out, "C03:error-path-write", "bytes written on the transport-error path", rp)
+			case 'C':
+				c03Fail(out, "C03:error-path-close", "Close on the transport-error path", rp)
+			case 'D':
+				if armed.IsZero() {
+					armed = e.dl
+				}
+			}
+		}
+		if cn.sawErr && (hung || armed.IsZero() || run.tRet.Before(armed)) {
+			c03Fail(out, "C03:error-path-early-return", "the handler returned before the deadline after a transport error", rp)
+		}
 		return
 	}
 	out.Checked()
-	rp := c.replay(vlib.Seed())
 	fail := func(what, detail string) {
 		c03Fail(out, "C03:"+what, fmt.Sprintf("%s: %s (class %s, phantom %s, %d registrations)", what, detail, c.class, c.phantom, run.count), rp)
 	}
@@ -300,11 +318,13 @@ func c03FlipBit(b []byte, bit int) []byte {
 	return c
 }
 
-// tagBits lists the bit positions of a flight whose flip invalidates the tag (for obfs4: the
-// representative and the mark; flips in the padding or the MAC leave the mark valid — the connection
-// then *does* present a registered mark and is outside this property).
-func c03TagBits(reg *c34Reg, flight []byte) []int {
-	var out []int
+// tagBits lists the bit positions of a flight whose flip invalidates the tag.
+//   - obfs4: the representative and the mark; flips in the padding or the MAC leave the mark valid —
+//     the connection then *does* present a registered mark and is outside this property;
+//   - prefix: everything except the two top bits of the Elligator representative (tag byte 31, bits 6
+//     and 7): the client randomises them and the station masks them (`representative[31] &= 0x3F`),
+//     they are padding, not tag — a flight with one of them flipped is still a valid flight.
+func c03TagBits(reg *c34Reg, flight []byte) (out, padding []int) {
 	add := func(lo, hi int) {
 		for i := lo * 8; i < hi*8; i++ {
 			out = append(out, i)
@@ -314,10 +334,19 @@ func c03TagBits(reg *c34Reg, flight []byte) []int {
 	case pb.TransportType_Obfs4:
 		add(0, 32)
 		add(len(flight)-32, len(flight)-16)
+	case pb.TransportType_Prefix:
+		off := len(flight) - 64
+		for i := 0; i < len(flight)*8; i++ {
+			if i == (off+31)*8+6 || i == (off+31)*8+7 {
+				padding = append(padding, i)
+			} else {
+				out = append(out, i)
+			}
+		}
 	default:
 		add(0, len(flight))
 	}
-	return out
+	return
 }
 
 func c03Phantoms(r *vlib.Rand, nClients int) string {
@@ -412,36 +441,34 @@ func (g *c03Gen) staticPrefixes(thorough bool) {
 
 func (g *c03Gen) flips(thorough bool) {
 	r := g.r
-	for ci, reg := range g.clients {
-		if reg.tt == pb.TransportType_Prefix && !(reg.flush == 0 && !reg.randPort) && !thorough {
-			continue // the flush policy / port mode do not change the flight's bytes; thorough covers them anyway
-		}
-		if reg.tt == pb.TransportType_Prefix && reg.flush != 0 {
+	for _, reg := range g.clients {
+		// the flush policy does not change the flight's bytes; the port mode does not either (quick skips it)
+		if reg.tt == pb.TransportType_Prefix && (reg.flush != 0 || (reg.randPort && !thorough)) {
 			continue
 		}
 		fl := g.flight(reg, -2)
-		bits := c03TagBits(reg, fl)
+		tb, pad := c03TagBits(reg, fl)
+		nbits := len(tb)
+		for _, b := range pad {
+			// still a valid flight: the registration is found (correspondence only, outside the property)
+			g.emit(c03Case{phantom: reg.phantom, geo: "ok", tagged: true, class: "padding-bit-flipped-still-valid",
+				evs: c03Segment(r, c03FlipBit(g.flight(reg, -2), b))})
+		}
 		step := 1
 		if !thorough {
 			step = 8 // quick: one bit of every byte, rotating
 		}
-		for i := r.Intn(step); i < len(bits); i += step {
-			if step > 1 && reg.tt != pb.TransportType_Obfs4 {
-				fl = g.flight(reg, -2) // a fresh flight (new ephemeral key) now and then
-			} else if reg.tt == pb.TransportType_Obfs4 && i%64 == 0 {
-				fl = g.flight(reg, -2)
-				bits = c03TagBits(reg, fl)
+		for i, k := r.Intn(step), 0; i < nbits; i, k = i+step, k+1 {
+			if k%16 == 0 {
+				fl = g.flight(reg, -2) // a fresh flight (new ephemeral keys, new padding) now and then
 			}
-			if i >= len(bits) {
-				break
-			}
-			d := c03FlipBit(fl, bits[i])
+			tb, _ = c03TagBits(reg, fl)
+			d := c03FlipBit(fl, tb[i])
 			if reg.tt != pb.TransportType_Obfs4 && r.Chance(1, 3) {
 				d = append(d, r.Bytes(r.Range(1, 300))...) // "early data" behind the damaged flight
 			}
 			g.probe("genuine-flight-bit-flipped:"+reg.tname(), reg.phantom, d)
 		}
-		_ = ci
 	}
 }
 
@@ -703,7 +730,6 @@ func TestVerifC03(t *testing.T) {
 	c03RealSockets(out, vlib.Budget(40, 300), &bg)
 
 	nW := 6
-	jobs := make(chan c03Case, 512)
 	var wg sync.WaitGroup
 	errs := make(chan error, nW+1)
 	worlds := make([]*c34World, nW)
@@ -732,7 +758,6 @@ func TestVerifC03(t *testing.T) {
 			}
 		}(wi)
 	}
-	_ = jobs
 	gens := make([]*c03Gen, nW)
 	for wi := 0; wi < nW; wi++ {
 		wi := wi
